@@ -306,3 +306,30 @@ package rsm
 //@ loop 1 modifies bw.block, bw.written, bw.total, bw.nextStop, elems(bw.block)
 //@ loop 1 invariant bw.valid() && !bw.flushed && ptr(bw.block) == ptr(old(bw.block)) && cap(bw.block) == cap(old(bw.block)) && bw.blockSize == old(bw.blockSize)
 //@ loop 1 invariant totalN + len(bs) == len(old(bs)) && ptr(bs) == ptr(old(bs)) + totalN && cap(bs) == cap(old(bs)) - totalN && bw.written == old(bw.written) + totalN
+
+// ---------------------------------------------------------------- task queue between the step and apply workers (C11 C02)
+// abstract view: the pending tasks are tq.tasks[tq.next:], in order
+
+//@ func (tq *TaskQueue) size [C11]
+//@ requires tq.next <= len(tq.tasks)
+//@ ensures result == len(tq.tasks) - tq.next
+
+// compaction never loses, duplicates or reorders a pending task
+//@ func (tq *TaskQueue) resize [C11 C02]
+//@ requires tq.next <= len(tq.tasks)
+//@ modifies tq.tasks, tq.next
+//@ ensures tq.next <= len(tq.tasks) && len(tq.tasks) - tq.next == old(len(tq.tasks) - tq.next)
+//@ ensures forall j int :: 0 <= j && j < len(tq.tasks) - tq.next ==> tq.tasks[tq.next + j] == old(tq.tasks[tq.next + j])
+
+//@ func (tq *TaskQueue) Get [C11 C02]
+//@ requires tq.next <= len(tq.tasks) && tq.next < MaxUint64
+//@ modifies held(tq.mu), tq.tasks, tq.next, elems(tq.tasks)
+//@ ensures result1 == (old(tq.next) < old(len(tq.tasks)))
+//@ ensures result1 ==> result0 == old(tq.tasks[tq.next]) && len(tq.tasks) - tq.next == old(len(tq.tasks) - tq.next) - 1
+//@ ensures !result1 ==> len(tq.tasks) - tq.next == 0
+
+//@ func (tq *TaskQueue) Add [C11 C02]
+//@ requires tq.next <= len(tq.tasks)
+//@ modifies held(tq.mu), tq.tasks, elems(tq.tasks[len(tq.tasks):])
+//@ ensures tq.next == old(tq.next) && len(tq.tasks) == old(len(tq.tasks)) + 1 && tq.tasks[len(tq.tasks) - 1] == task
+//@ ensures forall j int :: 0 <= j && j < old(len(tq.tasks)) ==> tq.tasks[j] == old(tq.tasks[j])
